@@ -3377,10 +3377,11 @@ theorem execute_eq (fuel m : Nat) (s : State) (input : List UInt8) (fault : Opti
     execute fuel m s input fault =
       (match scanRun fuel m (startState s input fault) with
        | (s1, r) =>
+         -- the structured comments seen so far are kept, whether or not the call fails
          match r with
-         | .err .exit => (s1, .err (.ps "invalidexit"))
+         | .err .exit => ({ s1 with dsc := s1.dsc ++ s1.scanner.dsc }, .err (.ps "invalidexit"))
          | .err .stop | .ok => ({ s1 with dsc := s1.dsc ++ s1.scanner.dsc }, .ok)
-         | _ => (s1, r)) := rfl
+         | _ => ({ s1 with dsc := s1.dsc ++ s1.scanner.dsc }, r)) := rfl
 
 theorem start_pre (t : String) (s : State) (input : List UInt8) : Pre t (startState s input (some t)).scanner :=
   ⟨⟨rfl, Or.inl rfl⟩, Or.inr ⟨rfl, rfl⟩⟩
@@ -3632,10 +3633,11 @@ theorem eexec_begin_propagates {n m : Nat} {s : State} {rest : List Obj} {sc2 : 
   unfold callBuiltin
   simp only [hst, withScanner, hb, hd, Bool.false_eq_true, if_false]
 
-/-- `Execute` passes every fatal result on -/
+/-- `Execute` passes every fatal result on (the state only gains the scanner's structured
+comments) -/
 theorem execute_propagates {fuel m : Nat} {s s1 : State} {input : List UInt8} {fault : Option String} {r : Res}
     (h : scanRun fuel m (startState s input fault) = (s1, r)) (hr : FatalRes r) :
-    execute fuel m s input fault = (s1, r) := by
+    execute fuel m s input fault = ({ s1 with dsc := s1.dsc ++ s1.scanner.dsc }, r) := by
   rw [execute_eq, h]
   dsimp only
   cases r with
